@@ -1,2 +1,252 @@
-(* placeholder while the harness is being validated *)
-From DW Require Import PyStr CoerceModel.
+(* C04 — loading applies the documented coercions, and only those.
+   Statements only (closed by `exact` / short glue) + Print Assumptions.
+   Model: CoerceModel.v (code-shaped, three engines).  Reference: CoerceRef.v
+   ([doc_scalar], [lift]: transcription of the documentation).  The standard-library
+   functions the library only calls are the universally quantified record [O : oracles]. *)
+From DW Require Import PyStr T_Truthy CoerceModel CoerceRef CoerceProofs.
+From Coq Require Import Lia.
+
+(* Tie T: the truthy set regenerated from type_conv.TRUTHY_VALUES is the documented one
+   (TRUE, T, YES, Y, ON, 1; compared case-folded). *)
+Theorem C04_truthy_is_documented :
+  truthy_values = [S "1"; S "on"; S "t"; S "true"; S "y"; S "yes"] /\
+  forall w, mem_str w (map lower truthy_doc) = mem_str w truthy_values.
+Proof. split; [reflexivity|exact truthy_is_documented]. Qed.
+Print Assumptions C04_truthy_is_documented.
+
+(* as_bool (default engine, Env) on every input: bools unchanged, strings by the
+   case-insensitive documented set (stated with upper-casing, the code lower-cases),
+   numbers by == 1, everything else False. *)
+Theorem C04_bool :
+  forall j, as_bool j =
+    match j with
+    | JBool b => b
+    | JStr s => doc_truthy s
+    | JInt z => Z.eqb z 1
+    | JFloat f => fl_eq_Z f 1
+    | _ => false
+    end.
+Proof. exact as_bool_doc. Qed.
+Print Assumptions C04_bool.
+
+(* the v1 code template computes the same function *)
+Theorem C04_bool_v1 : forall j, load_bool_v1 j = as_bool j.
+Proof. exact load_bool_v1_doc. Qed.
+Print Assumptions C04_bool_v1.
+
+(* round() of the model is "nearest integer, ties to even" on every exact dyadic, and that
+   specification determines the result *)
+Theorem C04_round_half_even : forall m e n, fl_round (FDy m e) = Ok n -> rounds_to (FDy m e) n.
+Proof. exact fl_round_sound. Qed.
+Print Assumptions C04_round_half_even.
+Example C04_round_example : fl_round (FDy 5 (-1)) = Ok 2%Z /\ fl_round (FDy 7 (-1)) = Ok 4%Z /\ fl_round (FDy (-1) (-1)) = Ok 0%Z.
+Proof. repeat split. Qed.
+
+Theorem C04_round_unique : forall f n n', rounds_to f n -> rounds_to f n' -> n = n'.
+Proof. exact rounds_to_unique. Qed.
+Print Assumptions C04_round_unique.
+
+(* an integer string (accepted by int()) is non-empty and has no decimal point, so the
+   float-string branch and the integer-string branch of as_int never overlap *)
+Theorem C04_int_of_str_shape :
+  forall s z, py_int_of_str s = Ok z -> s <> [] /\ contains_char c_dot s = false.
+Proof. exact int_of_str_shape. Qed.
+Print Assumptions C04_int_of_str_shape.
+Example C04_int_of_str_example : py_int_of_str (S " -1_000 ") = Ok (-1000)%Z /\ py_int_of_str (S "1__0") = Err EValue.
+Proof. split; reflexivity. Qed.
+
+(* THE scalar theorem: whatever the documentation says about (engine, scalar type, value),
+   the model does.  Partial: the region of the open defect F22 (v1, a number at a datetime
+   position) is excluded; see C04_datetime_numeric_v1_refuted. *)
+Theorem C04_scalar_ref_partial :
+  forall O e s j r, f22_region e s j = false -> doc_scalar O e s j r -> load_scalar O e s j = r.
+Proof. exact scalar_ref. Qed.
+Print Assumptions C04_scalar_ref_partial.
+Example C04_scalar_ref_example O :
+  doc_scalar O V0 SInt (JFloat (FDy 5 (-1))) (Ok (VInt 2)) /\
+  doc_scalar O V1 SInt (JFloat (FDy 5 (-1))) (Err EValue) /\
+  doc_scalar O Env SBool (JStr (S "oN")) (Ok (VBool true)) /\
+  f22_region V0 SInt (JFloat (FDy 5 (-1))) = false.
+Proof.
+  repeat split.
+  - apply d_int_float_round; [reflexivity|]. cbn. split; [lia|reflexivity].
+  - apply d_int_float_fractional. cbn. unfold fl_num, fl_den. cbn. intro n. lia.
+  - exact (d_bool_str O Env (S "oN")).
+Qed.
+
+(* int, default engine and Env: ''/None -> 0, bool rejected, floats and float strings rounded
+   half-even, integer strings *)
+Theorem C04_int_v0 :
+  forall O e j r, is_v1 e = false -> doc_scalar O e SInt j r ->
+  rmap VInt (as_int O j) = r.
+Proof.
+  intros O e j r He H. rewrite <- (scalar_ref O e SInt j r) by (destruct e, j; try reflexivity; assumption).
+  destruct e; try discriminate; reflexivity.
+Qed.
+Print Assumptions C04_int_v0.
+
+(* int, v1: fractional floats and float strings rejected, None not coerced *)
+Theorem C04_int_v1 :
+  forall O j r, doc_scalar O V1 SInt j r -> rmap VInt (load_int_v1 O j) = r.
+Proof.
+  intros O j r H. rewrite <- (scalar_ref O V1 SInt j r) by (destruct j; try reflexivity; assumption). reflexivity.
+Qed.
+Print Assumptions C04_int_v1.
+
+Theorem C04_str :
+  forall O e j r, doc_scalar O e SStr j r -> rmap VStr (as_str O j) = r.
+Proof.
+  intros O e j r H. rewrite <- (scalar_ref O e SStr j r) by (destruct e, j; try reflexivity; assumption). reflexivity.
+Qed.
+Print Assumptions C04_str.
+
+(* the code's replace('Z', '+00:00', 1) is the documented suffix rewrite whenever the only Z
+   of the string is its last character, and the identity when there is none *)
+Theorem C04_datetime_z_suffix :
+  (forall s', no_Z s' = true -> z_rewrite (s' ++ S "Z") = s' ++ S "+00:00") /\
+  (forall s, no_Z s = true -> z_rewrite s = s).
+Proof. split; [exact z_rewrite_suffix|exact z_rewrite_noZ]. Qed.
+Print Assumptions C04_datetime_z_suffix.
+Example C04_datetime_z_example : z_rewrite (S "2020-01-02T03:04:05Z") = S "2020-01-02T03:04:05+00:00".
+Proof. reflexivity. Qed.
+
+(* default engine and Env: a number at a datetime position goes to fromtimestamp(x, tz=utc);
+   bool is not a number *)
+Theorem C04_datetime_numeric_utc :
+  forall O e j x, is_v1 e = false -> as_number j = Some x ->
+  load_scalar O e SDateTime j = rmap VDateTime (o_dt_fromts O true x).
+Proof.
+  intros O e j x He Hx. destruct j; try discriminate; injection Hx as <-; destruct e; try discriminate; reflexivity.
+Qed.
+Print Assumptions C04_datetime_numeric_utc.
+
+(* v1: the same number goes to fromtimestamp(x, None) — what the pinned code does (F22) *)
+Theorem C04_datetime_numeric_v1_partial :
+  forall O j x, as_number j = Some x ->
+  load_scalar O V1 SDateTime j = rmap VDateTime (o_dt_fromts O false x).
+Proof. intros O j x Hx. destruct j; try discriminate; injection Hx as <-; reflexivity. Qed.
+Print Assumptions C04_datetime_numeric_v1_partial.
+
+(* ... which is not the documented (UTC) result as soon as the builtin answers differently
+   for tz=utc and tz=None: witness 0 with the answers of the real fromtimestamp. *)
+Definition f22_oracles : oracles :=
+  {| o_float_of_str := fun _ => Err EMissing; o_str := fun _ => Err EMissing;
+     o_dt_iso := fun _ => Err EMissing; o_date_iso := fun _ => Err EMissing; o_time_iso := fun _ => Err EMissing;
+     o_dt_fromts := fun utc _ => Ok (if utc then S "1970-01-01T00:00:00+00:00" else S "1970-01-01T00:00:00");
+     o_date_fromts := fun _ => Err EMissing; o_timeparse := fun _ => Err EMissing;
+     o_timedelta := fun _ => Err EMissing; o_decimal := fun _ => Err EMissing;
+     o_b64 := fun _ => Err EMissing; o_json := fun _ => Err EMissing |}.
+Theorem C04_datetime_numeric_v1_refuted :
+  exists O j r, doc_scalar O V1 SDateTime j r /\ load_scalar O V1 SDateTime j <> r.
+Proof.
+  exists f22_oracles, (JInt 0), (rmap VDateTime (o_dt_fromts f22_oracles true (NInt 0))).
+  split; [exact (d_dt_int f22_oracles V1 0)|]. vm_compute. discriminate.
+Qed.
+Print Assumptions C04_datetime_numeric_v1_refuted.
+
+(* EnvWizard: digit strings at a datetime position are timestamps (UTC) *)
+Theorem C04_datetime_env_numeric_string :
+  forall O s f, numeric_doc s = true -> o_float_of_str O s = Ok f ->
+  load_scalar O Env SDateTime (JStr s) = rmap VDateTime (o_dt_fromts O true (NFloat f)).
+Proof. intros O s f Hn Hf. exact (scalar_ref O Env SDateTime _ _ eq_refl (d_dt_env_numstr O s f Hn Hf)). Qed.
+Print Assumptions C04_datetime_env_numeric_string.
+Example C04_numeric_doc_example : numeric_doc (S "1651077045") = true /\ numeric_doc (S "1.23") = true /\ numeric_doc (S "1.2.3") = false /\ numeric_doc (S ".") = false.
+Proof. repeat split. Qed.
+
+(* timedelta dispatch, all engines: numeric-form strings via float(), other strings via
+   pytimeparse, numbers as seconds; bool / None / containers rejected with TypeError *)
+Theorem C04_timedelta_dispatch :
+  forall O e j,
+  load_scalar O e STimedelta j =
+    rmap VTimedelta
+      match j with
+      | JStr s =>
+          if numeric_doc s then bind (o_float_of_str O s) (fun f => o_timedelta O (NFloat f))
+          else bind (o_timeparse O s) (fun r => match r with Some x => o_timedelta O x | None => Err EValue end)
+      | JInt z => o_timedelta O (NInt z)
+      | JFloat f => o_timedelta O (NFloat f)
+      | _ => Err EType
+      end.
+Proof.
+  intros O e j. destruct j; try reflexivity. cbn [load_scalar as_timedelta]. now rewrite numeric_form_doc.
+Qed.
+Print Assumptions C04_timedelta_dispatch.
+
+(* Enum by value (string and integer values), Decimal via str *)
+Theorem C04_enum :
+  forall O e ms j r, doc_scalar O e (SEnum ms) j r -> rmap VEnum (enum_lookup ms j) = r.
+Proof.
+  intros O e ms j r H. rewrite <- (scalar_ref O e (SEnum ms) j r) by (destruct e, j; try reflexivity; assumption). reflexivity.
+Qed.
+Print Assumptions C04_enum.
+Example C04_enum_example O :
+  doc_scalar O V0 (SEnum ([(JStr (S "red"), S "RED")] ++ (JInt 1, S "ONE") :: [])) (JInt 1) (Ok (VEnum (S "ONE"))).
+Proof. apply d_enum_int. intros v n [H|[]]. now injection H as <- <-. Qed.
+
+Theorem C04_decimal :
+  forall O e j r, doc_scalar O e SDecimal j r -> load_scalar O e SDecimal j = r.
+Proof. intros O e j r H. apply scalar_ref; [destruct e, j; reflexivity|assumption]. Qed.
+Print Assumptions C04_decimal.
+
+(* THE lifting theorem: for every engine, every container context c (Optional, list,
+   tuple[t, ...], fixed tuple with arbitrary neighbours, dict value; nested to any depth) and
+   every type t: if g describes the load at the hole, the documented element-wise meaning of
+   the context describes the load at plug c t.  By induction on contexts. *)
+Theorem C04_everywhere :
+  forall O e c t (g : jv -> option (res pv)),
+  (forall j r, g j = Some r -> load O e t j = r) ->
+  forall j R, lift O e c g j = Some R -> load O e (plug c t) j = R.
+Proof. exact everywhere. Qed.
+Print Assumptions C04_everywhere.
+Example C04_everywhere_example O :
+  let g := fun j => Some (load O V0 (TS SInt) j) in
+  lift O V0 (CDict KStr (CList (COpt CHole))) g (JDict [(S "a", JList [JNone; JStr (S " 7 "); JFloat (FDy 5 (-1))])])
+  = Some (Ok (VDict [(VStr (S "a"), VList [VNone; VInt 7; VInt 2])])).
+Proof. reflexivity. Qed.
+
+(* ... and with the DOCUMENTED scalar coercion at the hole (outside the F22 region) the
+   documented result is what the model loads, at every nesting depth *)
+Theorem C04_everywhere_ref :
+  forall O e c s (g : jv -> option (res pv)),
+  (forall j r, g j = Some r -> doc_scalar O e s j r /\ f22_region e s j = false) ->
+  forall j R, lift O e c g j = Some R -> load O e (plug c (TS s)) j = R.
+Proof. exact everywhere_ref. Qed.
+Print Assumptions C04_everywhere_ref.
+Example C04_everywhere_ref_example O :
+  let g := fun j => match j with JStr s => Some (Ok (VBool (doc_truthy s))) | _ => None end in
+  (forall j r, g j = Some r -> doc_scalar O Env SBool j r /\ f22_region Env SBool j = false) /\
+  lift O Env (CList CHole) g (JStr (S "yes, no ,ON")) = Some (Ok (VList [VBool true; VBool false; VBool true])).
+Proof.
+  split; [|reflexivity]. intros j r H. destruct j; try discriminate. injection H as <-.
+  split; [apply d_bool_str|reflexivity].
+Qed.
+
+(* EnvWizard: a string that does not start with '[' splits on ',' and every piece is stripped;
+   a string that does not start with '{' and whose pieces all contain '=' (distinct keys)
+   becomes the dict of stripped key / value pairs *)
+Theorem C04_env_split :
+  forall O s, first_is "["%char (lstrip s) = false ->
+  as_list O (JStr s) = Ok (JList (map (fun w => JStr (strip w)) (split_on ","%char s))).
+Proof. exact env_split. Qed.
+Print Assumptions C04_env_split.
+
+Theorem C04_env_split_dict :
+  forall O s d, first_is "{"%char (lstrip s) = false ->
+  shorthand_pairs (split_on ","%char s) = Some d -> distinct_keys d = true ->
+  as_dict O (JStr s) = Ok (JDict d).
+Proof. exact env_split_dict. Qed.
+Print Assumptions C04_env_split_dict.
+Example C04_env_split_dict_example :
+  shorthand_pairs (split_on ","%char (S "sharpened=Y,  uses_left = 3")) =
+    Some [(S "sharpened", JStr (S "Y")); (S "uses_left", JStr (S "3"))] /\
+  distinct_keys [(S "sharpened", JStr (S "Y")); (S "uses_left", JStr (S "3"))] = true.
+Proof. split; reflexivity. Qed.
+
+(* open defect F23: EnvWizard checks the element count of a fixed-arity tuple against len()
+   of the raw string, so the shorthand string whose split list loads fine is rejected *)
+Theorem C04_env_tuple_refuted :
+  forall O,
+  load O Env (TTup [TS SInt; TS SBool]) (JList (shorthand_list (S "1,yes"))) = Ok (VTuple [VInt 1; VBool true]) /\
+  load O Env (TTup [TS SInt; TS SBool]) (JStr (S "1,yes")) = Err EOther.
+Proof. intro O. split; reflexivity. Qed.
+Print Assumptions C04_env_tuple_refuted.
